@@ -15,17 +15,18 @@
    and no client use of a moved-from handle) and incrs = 0 (no completed read-increment-write: modify and
    incr through a handle are not register operations).
 
-   Partial: the Herlihy-Wing meta-theorem "a legal sequential log whose entries are appended inside their
-   operations' invoke..return intervals and carry the returned values => the history is linearizable" is
-   not mechanised; what is proved are its premises (reg_linearizable, reg_returns_logged,
-   reg_lin_point_inside_call).  That the designated step is taken at most once per operation is by the
-   structure of the bodies (reg_no_second_entry covers the pcs after it), not by a counting invariant.
+   Herlihy & Wing: Common/Lin.v proves once that linearization points imply linearizability; Proofs/WrapperHW.v
+   instantiates it: hist_of (the annotated history Inv / Lin / Res of a run), reg_hist_wf (per thread: invocation,
+   exactly one logging step, return - proved from the structure of the bodies - and the list the scan returns is
+   a legal run of reg_apply with the returned values), reg_linearizable_hw.
+   What remains modelled / assumed: the instrumented payload kind (plain cf = false); for the history theorems an
+   empty throw plan and clients that modify the object only through the register operations (reg_clients);
    exchange's read of the old value is the model's silent read inside WPay's move assignment (VPay reads the
-   source without a window): the theorem is about that read, which happens under the lock_guard. *)
+   source without a window): the theorems are about that read, which happens under the lock_guard. *)
 From Coq Require Import List Arith ZArith Lia Bool.
 Import ListNotations.
 From GV Require Import Sched Events WrapperModel.
-From GV Require WrapperProofs WrapperLin DeferredModel DeferredProofs.
+From GV Require Lin WrapperProofs WrapperLin WrapperHW DeferredModel DeferredProofs.
 Local Open Scope Z_scope.
 
 (* the logged runs are exactly the runs of the model *)
@@ -78,6 +79,27 @@ Theorem reg_no_second_entry : forall t g l,
   WrapperLin.lin_of t g l = None.
 Proof. exact WrapperLin.reg_no_second_entry. Qed.
 
+(* Herlihy & Wing.  The annotated history of a run (WrapperHW.hist_of: Inv t op at the K_INVOKE step of load /
+   store / operator= / exchange / compare_exchange / operator T, Lin t at the logging step, Res t r at the step
+   that emits its K_RET, r decoded from the K_RET value; everything else emits nothing) is well formed and the
+   list of operations Lin.scan computes from it - ordered by linearization point - is a legal sequential run of
+   reg_apply from the initial value in which every completed operation has the result it returned ... *)
+Theorem reg_hist_wf : forall cf progs sched,
+  plain cf = false -> throws cf = [] -> WrapperHW.reg_clients progs ->
+  WrapperProofs.safe cf (gl (run glob loc (tstep cf) (init cf progs) sched)) ->
+  incrs (gl (run glob loc (tstep cf) (init cf progs) sched)) = 0%nat ->
+  exists L, Lin.scan WrapperLin.regop WrapperLin.ret (WrapperHW.hist_of cf progs sched) = Some L /\
+            Lin.legal WrapperLin.regop WrapperLin.ret Z WrapperLin.reg_apply (init_val cf) L.
+Proof. exact WrapperHW.reg_hist_wf. Qed.
+(* ... hence every such history is linearizable (Lin.linearization: every record describes actual events, every
+   completed operation occurs, real-time order respected; Lin.legal: the sequential specification explains the results) *)
+Theorem reg_linearizable_hw : forall cf progs sched,
+  plain cf = false -> throws cf = [] -> WrapperHW.reg_clients progs ->
+  WrapperProofs.safe cf (gl (run glob loc (tstep cf) (init cf progs) sched)) ->
+  incrs (gl (run glob loc (tstep cf) (init cf progs) sched)) = 0%nat ->
+  Lin.linearizable WrapperLin.regop WrapperLin.ret Z WrapperLin.reg_apply (init_val cf) (WrapperHW.hist_of cf progs sched).
+Proof. exact WrapperHW.reg_linearizable_hw. Qed.
+
 (* a load never returns a partially written value: while a read window of the wrapped object is open the
    object is not dirty and no write window is open *)
 Theorem reg_no_torn_load : forall cf progs s t l,
@@ -128,3 +150,19 @@ Proof.
   vm_compute. repeat split; try reflexivity.
   eapply legal_cons; [eapply legal_cons; [apply legal_nil|reflexivity]|reflexivity].
 Qed.
+
+(* a two-thread run: exchange and compare_exchange overlap (thread 1 invokes while thread 0 is inside); the
+   history scans to a two-element linearization, exchange first *)
+Definition hw_sched := rep 0 5 ++ rep 1 2 ++ rep 0 4 ++ rep 1 10.
+Definition hw_progs := [[Exchange 3]; [Cas 3 9]].
+Example hw_history :
+  WrapperHW.hist_of cf_a hw_progs hw_sched =
+    [Lin.Inv regop ret 0 (RXchg 3); Lin.Inv regop ret 1 (RCas 3 9); Lin.Lin regop ret 0; Lin.Res regop ret 0 (RVal 7);
+     Lin.Lin regop ret 1; Lin.Res regop ret 1 (RCasRes true 3)] /\
+  exists L, Lin.scan regop ret (WrapperHW.hist_of cf_a hw_progs hw_sched) = Some L /\ length L = 2%nat /\
+            map (Lin.o_thr regop ret) L = [0%nat; 1%nat] /\ Lin.legal regop ret Z reg_apply 7 L.
+Proof.
+  split; [vm_compute; reflexivity|]. eexists. split; [vm_compute; reflexivity|]. cbn. repeat split.
+Qed.
+Example hw_clients_ok : WrapperHW.reg_clients hw_progs /\ plain cf_a = false /\ throws cf_a = [].
+Proof. split; [|split; reflexivity]. intros p [<-|[<-|[]]]; reflexivity. Qed.
